@@ -10,11 +10,11 @@ MC_NOTE = ("Trusted: TLC and the TLA+ text under tla/ as the statement of intend
 CHECKS = {
     "C01": ("model_checking", "3.3, 6/C01", "TLC-enumerated configurations x histories of Mock.tla (invariants FirstMatchOnly, CountIsSelections) replayed on the real mock",
             "Exhaustive inside the bounds: every predicate subset, declaration order, exhausted and over-matched chains, strict and partial, all call histories up to the bound; every behaviour is executed against the real builder API and runtime and compared step by step."),
-    "C02": ("model_checking", "3.1, 6/C02", "Builder.tla index arithmetic = statement (ChainOK, KthResponse) by TLC; every chain x history replayed on original and clones",
+    "C02": ("model_checking", "3.1, 6/C02", "Builder.tla index arithmetic = statement (ChainOK, KthResponse) by TLC; every chain x history replayed on original and clones; the arithmetic for unbounded counts by Apalache (apalache/BuilderArith.tla)",
             "All well-typed quantifier chains of the family with every response kind, match counts from 0 to beyond the chain's end, ordered/unordered, stub/top-level forms; both the arithmetic-vs-statement equality in the model and the model-vs-code equality by replay."),
     "C03": ("model_checking", "3.3, 6/C03", "TLC invariant VerdictIff on Mock.tla; verdict and verification lines compared with the real drop/verify()/report()",
             "Both directions of the iff are enumerated: counts one below, at and above every bound, every subset of simultaneously violated expectations within the bounds, final verification through all three entry points."),
-    "C04": ("model_checking", "3.2, 3.3, 6/C04", "Assemble.tla FlatOK + Mock.tla OrderedPrefix by TLC; from every accepted prefix every next call replayed on the real mock",
+    "C04": ("model_checking", "3.2, 3.3, 6/C04", "Assemble.tla FlatOK + Mock.tla OrderedPrefix by TLC; from every accepted prefix every next call replayed on the real mock; slot partition for unbounded counts by Apalache",
             "Cumulative slot ranges equal the flattened expected sequence in the model; the real mock accepts exactly the model's prefixes and answers each slot with its response; the first deviation panics with the class the model gives."),
     "C07": ("model_checking", "3.3, 6/C07", "TLC invariants FallbackTable/NoFabrication on Mock.tla; the complete decision table replayed on the universe methods",
             "The decision table is finite and enumerated completely (strict/partial x unmentioned/unmatched/matched x default/unmock/both/neither x any/ord x position); outcomes (default body ran / real function ran / panic class) and untouched counters are compared with the real code."),
